@@ -622,6 +622,23 @@ func c03ProcessorSelection(c *an.Ctx) {
 					}
 				}
 				e := tempName.ReplaceAllString(an.Expr(cond), "")
+				// ... and they look at the media type, not at the whole header value: a Content-Type may carry
+				// parameters ("; charset=UTF-8"), so an equality test needs the value cut at ';' first (a prefix
+				// test tolerates them as it is)
+				if b, isB := cond.(*ssa.BinOp); isB && (b.Op == token.EQL || b.Op == token.NEQ) {
+					cut := false
+					for d := range deps {
+						if call, ok := d.(*ssa.Call); ok && call.Call.StaticCallee() != nil && call.Call.StaticCallee().Pkg != nil {
+							full := call.Call.StaticCallee().Pkg.Pkg.Path() + "." + call.Call.StaticCallee().Name()
+							switch full {
+							case "strings.Cut", "strings.Index", "strings.IndexByte", "strings.SplitN", "strings.Split", "mime.ParseMediaType":
+								cut = true
+							}
+						}
+					}
+					c.Check(cut, "R8", fmt.Sprintf("%s: body processor condition #%d compares the media type without its parameters", shortFn(name), k), in.Pos(), e,
+						"the body processor "+tempName.ReplaceAllString(an.Expr(an.CallOf(in).Args[1]), "")+" is selected by an equality test on the whole header value ("+e+"): `application/x-www-form-urlencoded; charset=UTF-8` selects no processor, so the body is never parsed and ARGS_POST / REQUEST_BODY stay empty with no error variable set")
+				}
 				c.Check(folded, "R8", fmt.Sprintf("%s: body processor condition #%d on the header value is case-insensitive", shortFn(name), k), in.Pos(), e,
 					"the body processor "+tempName.ReplaceAllString(an.Expr(an.CallOf(in).Args[1]), "")+" is selected by "+e+", a case-sensitive test of the raw header value: a media type written in another case (Multipart/Form-Data) selects no processor, so the whole body stays invisible to ARGS_POST/FILES with no error variable set")
 			}
